@@ -272,6 +272,11 @@ func vxH05Visible(kind int) {
 	case Tcreate:
 		tc.Mode = OREAD
 		tc.Name = "n"
+	case Tremove:
+		// the fid is gone after any Tremove, whether the implementation removed the file or refused
+		if vxBool("remove-fails") {
+			k.ops.outcome = vxOutErr
+		}
 	}
 	type snap struct {
 		present1, present2 bool
@@ -315,6 +320,9 @@ func vxH05Visible(kind int) {
 	case Tclunk:
 		vxAssert(s.rtype == Rclunk, "clunk-answered")
 		vxAssert(!s.present1, "clunked-fid-invalid-when-reply-is-sent")
+	case Tremove:
+		vxAssert(s.rtype == Rremove || s.rtype == Rerror, "remove-answered")
+		vxAssert(!s.present1, "removed-fid-invalid-when-reply-is-sent")
 	}
 	vxReach("done")
 }
